@@ -618,21 +618,46 @@ impl World {
             ids.insert(h.to_string(), json!(self.a.canon.key(&ca.id_cert().public_key.key_identifier().to_string())));
             let mut chs = Map::new();
             let children: Vec<ChildHandle> = ca.children().cloned().collect();
+            let v = serde_json::to_value(&*ca).unwrap();
             for c in children {
                 let Ok(d) = ca.get_child(&c) else { continue };
                 let mut keys = Map::new();
+                // the certificates in the slots of the keys the child has in use: issued
+                // `[key, class, resources, limit]`, suspended `[key, class, resources, limit, expiring]`
+                // (`expiring` = the test `process_child_unsuspend` makes: not_after <= now + 1 day)
+                let mut iss: Vec<Value> = vec![];
+                let mut sus: Vec<Value> = vec![];
                 for (k, st) in &d.used_keys {
                     let s = match st { UsedKeyState::InUse(rcn) => format!("inuse:{rcn}"), UsedKeyState::Revoked => "revoked".into() };
-                    keys.insert(self.a.canon.key(&k.to_string()), json!(s));
+                    let tok = self.a.canon.key(&k.to_string());
+                    keys.insert(tok.clone(), json!(s));
+                    if let UsedKeyState::InUse(rcn) = st {
+                        let certs = &v["resources"][rcn.to_string()]["certificates"];
+                        let ks = k.to_string();
+                        let canon = |rs: &rpki::repository::resources::ResourceSet|
+                            crate::canon::Canon::default().value(&serde_json::to_value(rs).unwrap());
+                        let issued = certs.get("issued").or_else(|| certs.get("inner")).and_then(|m| m.get(&ks))
+                            .and_then(|x| serde_json::from_value::<krill::api::ca::IssuedCertificate>(x.clone()).ok());
+                        if let Some(ic) = issued {
+                            iss.push(json!([tok, rcn.to_string(), canon(&ic.resources), limit_atoms(&ic.limit)]));
+                        }
+                        let suspended = certs.get("suspended").and_then(|m| m.get(&ks))
+                            .and_then(|x| serde_json::from_value::<krill::api::ca::SuspendedCert>(x.clone()).ok());
+                        if let Some(sc) = suspended {
+                            let expiring = !(sc.validity.not_after() > Time::now() + chrono::Duration::days(1));
+                            sus.push(json!([tok, rcn.to_string(), canon(&sc.resources), limit_atoms(&sc.limit), expiring]));
+                        }
+                    }
                 }
+                iss.sort_by_key(|x| x.to_string());
+                sus.sort_by_key(|x| x.to_string());
                 let res = crate::canon::Canon::default().value(&serde_json::to_value(&d.resources).unwrap());
                 chs.insert(c.to_string(), json!({
                     "id": self.a.canon.key(&d.id_cert.public_key.key_identifier().to_string()),
-                    "susp": d.state.is_suspended(), "res": res, "keys": keys}));
+                    "susp": d.state.is_suspended(), "res": res, "keys": keys, "iss": iss, "sus": sus}));
             }
             reg.insert(h.to_string(), Value::Object(chs));
             // resource classes with a current key
-            let v = serde_json::to_value(&*ca).unwrap();
             let mut cls = Map::new();
             if let Some(rcs) = v["resources"].as_object() {
                 for (rcn, rc) in rcs {
@@ -1352,6 +1377,18 @@ impl World {
         self.last_state = Some(after);
         Value::Object(o).to_string()
     }
+}
+
+/// A request limit as atoms (the harness only makes limits out of whole atoms, all three families).
+fn limit_atoms(lim: &RequestResourceLimit) -> Vec<u32> {
+    let mut atoms = vec![];
+    if !lim.is_empty() {
+        for a in 0..64u32 {
+            let rs = atoms_to_resources(&[a]);
+            if lim.apply_to(&rs).map(|x| x == rs).unwrap_or(false) { atoms.push(a); }
+        }
+    }
+    atoms
 }
 
 fn b64_bytes(s: &str) -> Bytes {
